@@ -26,7 +26,7 @@ SimpleVals ==
 
 Pure == UNION {{[op |-> "RoundTrip", cls |-> c, asg |-> a] : a \in Asgs(c)} : c \in Classes}
    \cup UNION {{[op |-> "Update", cls |-> c, asg |-> a, kw |-> k] : a \in ({<<>>} \cup Singles(c) \cup AllSet(c)), k \in Kw(c)} : c \in Classes}
-   \cup UNION {{[op |-> "DecodeExtra", cls |-> c, asg |-> a, extra |-> e] : a \in ({<<>>} \cup AllSet(c) \cup Singles(c)), e \in {"same", "foreign"}} : c \in Classes}
+   \cup UNION {{[op |-> "DecodeExtra", cls |-> c, asg |-> a, extra |-> e] : a \in ({<<>>} \cup AllSet(c) \cup Singles(c)), e \in {"same", "same_first", "foreign"}} : c \in Classes}
    \cup UNION {{[op |-> "SimpleRoundTrip", cls |-> c, val |-> v] : v \in SimpleVals[c]} : c \in DOMAIN SimpleVals}
 MaintOps == {[op |-> "MNew"], [op |-> "MFinalize"], [op |-> "MToJson"], [op |-> "MIter"], [op |-> "MReload"], [op |-> "MCopy"]}
        \cup {[op |-> n, name |-> x, state |-> s] : n \in {"MAdd"}, x \in {"w1", "w2"}, s \in {"Maint", "PreMaint"}}
